@@ -390,6 +390,9 @@ fn keyboard(host: &mut Host, name: &str, op: &Value) -> Result<Option<Value>, St
                 snap.columns_active_high = v;
             }
             kb.load_snapshot_state(&snap);
+            if cfg.get("raw_kil").and_then(|x| x.as_bool()) == Some(true) {
+                kb.set_raw_kil(true);       // host-side option (IQ-7000 profile): KIL from physical key state
+            }
             host.keyboards.insert(slot, (kb, mem));
             Ok(None)
         }
@@ -400,6 +403,7 @@ fn keyboard(host: &mut Host, name: &str, op: &Value) -> Result<Option<Value>, St
                 .map(|a| a.iter().filter_map(|v| v.as_u64()).map(|v| v as u8).collect())
                 .unwrap_or_default();
             let mut kb_irq = b(op, 3)?;
+            let raw_kil = op.get(5).and_then(|x| x.as_bool()).unwrap_or(false);
             let script = op
                 .get(4)
                 .and_then(|x| x.as_array())
@@ -461,6 +465,7 @@ fn keyboard(host: &mut Host, name: &str, op: &Value) -> Result<Option<Value>, St
                         } else {
                             let mut fresh = KeyboardMatrix::new();
                             fresh.load_snapshot_state(&back);
+                            fresh.set_raw_kil(raw_kil);      // configuration is supplied again, not restored
                             *kb = fresh;
                         }
                     }
